@@ -202,9 +202,15 @@ def run_case(ctx, col, case):
                 kw["F"] = rng.choice([600, 1800])
             if not step("move", (), kw, "move"):
                 return
-        elif r < 0.50:
+        elif r < 0.46:
             kw = {a: (rng.uniform(-5, 5) if rel else rng.uniform(-30, 30)) for a in "xyz" if rng.random() < 0.6}
             if not step("rapid", (), kw, "rapid"):
+                return
+        elif r < 0.50:
+            # absolute-bypass moves: absolute coordinates in either distance mode
+            name = rng.choice(["move_absolute", "move_absolute", "rapid_absolute"])
+            kw = {a: rng.uniform(-30, 30) for a in "xyz" if rng.random() < 0.6}
+            if not step(name, (), kw, name):
                 return
         elif r < 0.58:
             g.set_distance_mode(rng.choice(["absolute", "relative"]))
